@@ -117,11 +117,9 @@ def compositions(rng, n, tier):
     return res
 
 
-def run_case(ctx, i, rng):
-    spec, gkind = make_graph(rng, ctx)
-    tol = float(rng.choice([0.0, 1e-12, 1e-9, 1e-6, 1e-4, 1e-3, 1e-2, 1e-1, float(10 ** rng.uniform(-12, -1))]))
-    max_iter = int(rng.integers(1, 13 if ctx.tier == "quick" else 31))
-    ffp = bool(rng.random() < 0.7)
+def report_check(ctx, rng, spec, gkind, tol, max_iter, ffp):
+    """Drive the real optimizer one iteration at a time, replay the documented rule on the recorded chi2 trace and compare with one real call.
+    Returns (stop, conv, chi, verbose) or None."""
     case = {"graph": {k: v for k, v in spec.items() if k not in ("truth", "truth_by_id")}, "tol": tol, "max_iter": max_iter, "fix_first_pose": ffp}
     feats = {"graph_kind": gkind, "tol_zero": tol == 0.0}
     if tol == 0.0:
@@ -156,18 +154,18 @@ def run_case(ctx, i, rng):
             res = M.quiet_optimize(g2, tol=tol, max_iter=max_iter, fix_first_pose=ffp)
     except Exception as ex:
         ctx.check("stopping-rule", False, dict(feats, exception=type(ex).__name__), {"message": str(ex)[:300]}, case)
-        return
+        return None
     if amb:
         ctx.count("ambiguous_decision(both continuations accepted)")
     ok_rule = (res.num_iterations == stop and bool(res.converged) == conv and len(res.iteration_results) == nres)
     if not ok_rule and amb:
         ctx.skip("stopping decision within rounding of its threshold")
-        return
+        return None
     det = {"expected": {"num_iterations": stop, "converged": conv, "len_iteration_results": nres}, "reported": {"num_iterations": res.num_iterations, "converged": bool(res.converged),
            "len_iteration_results": len(res.iteration_results)}, "chi2_trace": chi[: stop + 2], "tol": tol, "max_iter": max_iter}
     ctx.check("stopping-rule", ok_rule, feats, det, case)
     if not ok_rule:
-        return
+        return None
     ctx.count("class:early_stop" if stop < max_iter else "class:max_iter_stop")
     if stop == max_iter and conv:
         ctx.count("class:converged_at_max_iter")
@@ -217,6 +215,18 @@ def run_case(ctx, i, rng):
             ctx.check("split-run-reproduces", False, dict(feats, exception=type(ex).__name__), {"parts": parts}, case)
             continue
         ctx.check("split-run-reproduces", same_state(M.snapshot_poses(g4), states[n]), feats, {"parts": parts, "n": n}, case)
+    return stop, conv, chi, verbose
+
+
+def run_case(ctx, i, rng):
+    spec, gkind = make_graph(rng, ctx)
+    tol = float(rng.choice([0.0, 1e-12, 1e-9, 1e-6, 1e-4, 1e-3, 1e-2, 1e-1, float(10 ** rng.uniform(-12, -1))]))
+    max_iter = int(rng.integers(1, 13 if ctx.tier == "quick" else 31))
+    ffp = bool(rng.random() < 0.7)
+    out = report_check(ctx, rng, spec, gkind, tol, max_iter, ffp)
+    if out is None:
+        return
+    stop, conv, chi, verbose = out
     if stop >= 2:
         ctx.nontrivial(gen.fingerprint({"spec": spec, "tol": tol, "max_iter": max_iter}))
     ctx.sample({"graph_kind": gkind, "tol": tol, "max_iter": max_iter, "chi2_trace": chi[:6], "stop_index": stop, "converged": conv, "verbose_call_first": verbose}, cap=3)
@@ -234,3 +244,24 @@ def pinned_stationary(ctx):
 
 
 PINNED = [pinned_stationary]
+
+
+def _dataset_case(name, nmax, tol, max_iter):
+    def f(ctx):
+        from .. import datasets
+
+        if not datasets.available(name):
+            ctx.skip("dataset file missing: " + name)
+            return
+        rng = np.random.default_rng([12, nmax])
+        spec = datasets.load_spec(name, nmax)
+        try:
+            report_check(ctx, rng, spec, "dataset:" + name, tol, max_iter, True)
+        except Skip as sk:
+            ctx.skip("dataset %s: %s" % (name, sk.reason))
+        ctx.count("dataset:" + name)
+        ctx.nontrivial("dataset-%s-%d" % (name, nmax))
+    return f
+
+
+DATASET_CASES = [_dataset_case("intel", 400, 1e-4, 8), _dataset_case("garage", 300, 1e-4, 8), _dataset_case("intel", 150, 1e-2, 4), _dataset_case("garage", 100, 0.0, 3)]
